@@ -50,7 +50,7 @@ MANIFEST = {
                  "regenerated tables and inventories and a differential rig",
     "design_ref": "5/C18",
 }
-MODULES = ["PrimaiteModel.Props.C18", "PrimaiteModel.Props.C18Accept", "PrimaiteModel.Props.C18Float"]
+MODULES = ["PrimaiteModel.Props.C18", "PrimaiteModel.Props.C18Accept", "PrimaiteModel.Props.C18Float", "PrimaiteModel.Props.C18Step"]
 EXE = "drv_c18"
 SHRINK_PER_SIG = 2      # failing traces minimised per distinct presumptive signature
 SHRINK_WALL = 40.0      # seconds of minimisation after which further failing traces are reported unminimised
